@@ -1008,6 +1008,13 @@ def optimize_stream(ck, batch, count):
         if i == 0:
             A, Y = DISPATCH_A.copy(), np.stack([DISPATCH_Y, -DISPATCH_Y], axis=1)
             m, n, G = 4, 2, 2
+        elif i in (1, 3, 5):
+            # a single clp whose unconstrained best value is negative: NNLS has to report clp 0 AND the residual of that
+            # clp, i.e. the data themselves (round-2 seeded change C01-5: a one-column fast path in the estimation provider
+            # computed the residual before clamping the clp)
+            n = 1
+            A = np.abs(gen_matrix(rng, g, "gauss", m, 1)) + 0.5
+            Y = np.stack([-(k + 1.0) * A[:, 0] + 0.125 * g.normal(size=m) for k in range(G)], axis=1)
         labels = [f"s{j+1}" for j in range(n)]
         link = (False, None, True, False)[(i // 2) % 4]      # unlinked and linked estimation providers
         spec = {"groups": {"default": {"link_clp": link, "residual_function": rf}}, "parameters": {"p.1": 1.0},
